@@ -28,7 +28,7 @@ TOKEN = re.compile(r"""
     \s*(?:
       (?P<num>\d+(?:\.\d+)?)
     | (?P<id>[A-Za-z_][A-Za-z_0-9]*(?:::[A-Za-z_][A-Za-z_0-9]*)*)
-    | (?P<op>\+\+|--|\+=|-=|\*=|/=|==|!=|<=|>=|&&|\|\||[-+*/=<>!(){};:,.&\[\]?])
+    | (?P<op>\+\+|--|\+=|-=|\*=|/=|==|!=|<=|>=|&&|\|\||[-+*/%=<>!(){};:,.&\[\]?])
     )""", re.X)
 
 
@@ -112,7 +112,7 @@ class P:
 
     def muldiv(self):
         a = self.unary()
-        while self.at("op") and self.peek()[1] in ("*", "/"):
+        while self.at("op") and self.peek()[1] in ("*", "/", "%"):
             op = self.eat()
             b = self.unary()
             a = ("bin", op, a, b)
@@ -188,6 +188,19 @@ class P:
             e = self.expr()
             self.eat("op", ";")
             return ("autodecl", name, e)
+        if self.at("id", "double") and self.at("id", None, 1) and self.at("op", "=", 2):
+            # `double x = e;` inside the translated part: an assignment to the local `x`
+            self.eat()
+            name = self.eat("id")
+            self.eat("op", "=")
+            e = self.expr()
+            self.eat("op", ";")
+            return ("assign", [("var", name)], e)
+        if self.at("id", "return"):
+            self.eat()
+            e = self.expr()
+            self.eat("op", ";")
+            return ("return", e)
         # assignment chain / compound assignment / increment
         lhs = self.postfix()
         if self.at("op", "++"):
@@ -304,6 +317,8 @@ class Fn:
     def __init__(self, name, struct, fields, params, consts, edge_sources, defname="", argnames=""):
         self.name = name
         self.defname = defname    # Lean name of the translated loop nest
+        self.calls = {}           # C++ callee -> (expected argument text, Lean term)
+        self.call_types = {}      # C++ callee -> 'D' | 'N'
         self.argnames = argnames  # the parameter names of that definition, in order
         self.struct = struct
         self.fields = fields          # name -> kind: 'D' | 'N' | 'M2' | 'M3' | 'M23'
@@ -323,6 +338,7 @@ class Emit:
         self.path = []         # position of the loop body being translated
         self.counter = [0]     # loops seen so far at each nesting level
         self.defs = []         # (name, index signature, body lines) of the loop bodies, innermost first
+        self.returns = 0
         self.edge_alias = []   # (iterator name, layer expr) -> target variable
 
     # type of an expression: 'D' double, 'N' natural, 'B' bool
@@ -339,7 +355,7 @@ class Emit:
             if n in self.fn.params:
                 return self.fn.params[n]
             if n in self.fn.consts:
-                return "D"
+                return "N" if n in getattr(self.fn, "nat_consts", ()) else "D"
             raise Lost("unknown name %s in %s" % (n, self.fn.name))
         if k == "call":
             f = e[1]
@@ -349,6 +365,8 @@ class Emit:
                 return "D"
             if f[0] == "var" and f[1] == "boost::target":
                 return "N"
+            if f[0] == "var" and f[1] in self.fn.calls:
+                return self.fn.call_types[f[1]]
             raise Lost("unknown call %s" % (f,))
         if k == "member":
             return "B"
@@ -427,6 +445,12 @@ class Emit:
                         if it == args[0][1][1]:
                             return tgt
                 raise Lost("boost::target outside its edge loop")
+            if n in self.fn.calls:
+                want, lean = self.fn.calls[n]
+                got = ",".join(norm_ws(self.src_of(a)) for a in args)
+                if got != want:
+                    raise Lost("%s called with (%s), expected (%s)" % (n, got, want))
+                return lean
             if n in self.fn.fields or n in self.fn.params:
                 return self.access(n, args)
             raise Lost("unknown function %s" % n)
@@ -459,6 +483,12 @@ class Emit:
         if k == "not":
             return "!%s" % self.atom(e[1])
         raise Lost("cannot translate expression %s" % (e,))
+
+    def src_of(self, e):
+        """source-like text of a simple argument expression (identifiers only)"""
+        if e[0] == "var":
+            return e[1]
+        raise Lost("argument too complex")
 
     def paren(self, t, left=False, right=False, op=None):
         if re.fullmatch(r"[A-Za-z_0-9.]+", t) or (t.startswith("(") and self.balanced_outer(t)):
@@ -552,6 +582,14 @@ class Emit:
             return [pad + self.assign_to(lhs, "%s + 1" % self.lhs_value(lhs))]
         if k == "block":
             return self.stmts(st[1], ind)
+        if k == "return":
+            if "ret" not in self.fn.fields:
+                raise Lost("`return` inside the translated part")
+            e = st[1]
+            if e[0] != "var" or e[1] not in self.fn.consts:
+                raise Lost("`return` of something that is not a named constant")
+            self.returns += 1
+            return [pad + self.set_field("ret", self.fn.consts[e[1]])]
         if k == "if":
             constexpr, c, th, el = st[1], st[2], st[3], st[4]
             cond = self.ex(c)
